@@ -146,7 +146,8 @@ def leafs(v, rng):
 
 def entries(v, rng):
     w, h = v.u(2), v.u(2)
-    for ns, npp in ((1, 1), (1, 0), (2, 2), (0, 0)):
+    # (1, 31) .. (31, 255): the SPS count is a 5-bit field, the PPS count a full byte — counts at and beyond 31 / 32
+    for ns, npp in ((1, 1), (1, 0), (2, 2), (0, 0), (1, 31), (1, 32), (2, 33), (31, 255), (31, 0)):
         spss = [bytes([0x67]) + v.bytes(3 + i) for i in range(ns)]
         ppss = [bytes([0x68]) + v.bytes(2 + i) for i in range(npp)]
         first = spss[0] if spss else b"\0\0\0\0"
@@ -154,7 +155,9 @@ def entries(v, rng):
                    + [x for s in spss for x in (F(2, len(s)), Raw(s))] + [F(1, npp)] + [x for s in ppss for x in (F(2, len(s)), Raw(s))])
         yield "avc1_%d_%d" % (ns, npp), isogen.visual_entry("avc1", w, h, [avcc])
     yield "avc1_pasp", isogen.visual_entry("avc1", w, h, [Box("pasp", [F(4, 1), F(4, 1)]), isogen.avcc()])
-    for arrays in ((), ((32, (b"\x40\x01",)),), ((0x80 | 33, (b"\x42\x01\x02", b"")), (34, ())),):
+    many = tuple((0x80 | (32 + i % 3), (bytes([i]),)) for i in range(40))
+    for arrays in ((), ((32, (b"\x40\x01",)),), ((0x80 | 33, (b"\x42\x01\x02", b"")), (34, ())), ((32, (b"\x40\x01\x0c",)), (33, (b"ab",))), ((33, (b"",) * 3),),
+                   ((32, tuple(bytes([j % 256, j % 251]) for j in range(300))),), many):
         items = [F(1, 1), F(1, v.u(1)), F(4, v.u(4)), F(6, v.u(6)), F(1, v.u(1)), F(2, 0xf000 | v.u(2, 4096)), F(1, 0xfc | v.u(1, 4)), F(1, 0xfc | v.u(1, 4)),
                  F(1, 0xf8 | v.u(1, 8)), F(1, 0xf8 | v.u(1, 8)), F(2, v.u(2)), F(1, v.u(1)), F(1, len(arrays))]
         for typ, nalus in arrays:
